@@ -6,26 +6,26 @@ VERIF = os.path.dirname(os.path.dirname(os.path.abspath(__file__)))
 
 CLAIMED = {
     "C01": ("solveOne_sound / solveAll_sound / optimize_sound: on the model of the search loop, for every variable and value heuristic and every reachable stack, every yielded or returned vector is `reported P σ` for an assignment σ inside the root domains satisfying every posted constraint (C01_enumeration, C01_optimisation); whole-run correspondence (solution sequence + 13 statistics) and brute-force check of the real solver", "§7 C01"),
-    "C04": ("C04_any_scheduler / C04_bcPass: under the engine invariant a propagation pass returns after fewer than (W+1)(n+1) constraint executions for every scheduler (lexicographic measure); Safe per algorithm; whole-solver runs under a watchdog; search termination stated (C04_search_full)", "§7 C04"),
+    "C04": ("C04_any_scheduler / C04_bcPass: under the engine invariant a propagation pass returns after fewer than (W+1)(n+1) constraint executions for every scheduler (lexicographic measure); C04_shavingPass; C04_search (the search returns within an explicit fuel); Safe per algorithm incl. C04_port_alldifferent / C04_port_gcc (the raw ported pointer chasing never exhausts its loop budgets in contract); whole-solver runs and every single filtering call under a watchdog", "§7 C04"),
     "C05": ("Sound <alg> theorems (Lean) for the proved algorithms + correspondence of every compute_domains_* with the model + brute-force oracle on the implementation", "§7 C05"),
     "C06": ("GroundOk <alg> theorems + C06_point_iff; correspondence on instantiated boxes; oracle", "§7 C06"),
     "C07": ("EntailOk <alg> theorems; status correspondence; oracle", "§7 C07"),
-    "C08": ("bcLoopG_inv: for every admissible scheduler a pass preserves `queued ∨ fixpoint`, only shrinks, ends with an empty queue (C08_pass, C08_shipped); TrigOk per algorithm; step-level correspondence of every pass on random walks of the real engine", "§7 C08"),
+    "C08": ("bcLoopG_inv: for every admissible scheduler a pass preserves `queued ∨ fixpoint`, only shrinks, ends with an empty queue (C08_pass, C08_shipped, C08_greatest); TrigOk per algorithm (K3: no_sub_cycle only in the instantiated form); step-level correspondence of every pass on random walks of the real engine; TrigOk evaluated directly on the real code (sub-boxes reached by unwatched events must be fixpoints) and declared masks vs maskAlg", "§7 C08"),
     "C09": ("BranchOk for the five shipped value heuristics (partition, untouched rest, complete events for the branch taken and every recorded alternative), backtrack restores the saved level and fails iff none is left; step-level correspondence of every decision on random walks of the real engine", "§7 C09"),
-    "C11": ("C11_solve/C11_stats/C11_aggregate/C11_optimize_*: for every interleaving of the workers' streams the parent yields a permutation of all solutions, consumes all messages, keeps final statistics, returns an optimal solution; the REAL parent loop driven through a scripted queue on enumerated interleavings", "§7 C11"),
+    "C11": ("C11_solve/C11_stats/C11_aggregate/C11_optimize_*: for every interleaving of the workers' streams the parent yields a permutation of all solutions, consumes all messages, keeps final statistics, returns an optimal solution; C11_end_to_end_solve/_optimize: composed with C12 and C02/C03 per worker, the multiprocessing result equals the sequential one; the REAL parent loop driven through a scripted queue on enumerated interleavings; every worker's stream compared with the model's search on its part", "§7 C11"),
     "C12": ("C12_split_Sol/_unique/_disjoint + splitBounds_*: the parts are non-empty consecutive intervals covering the domain; the sub-problems' solution sets partition the problem's; exhaustive comparison of Problem.split with the model", "§7 C12"),
-    "C14": ("Exact <alg> theorems (support of every bound + idempotence), affineEq_oneRound; equality of model and implementation on the exhaustive small scope; brute-force hull", "§7 C14"),
+    "C14": ("Exact <alg> theorems (support of every bound + idempotence) for 17 algorithms incl. alldifferent (proved on the line-by-line port: the checker never rejects, Hall characterisation of bound consistency), affineEq_oneRound; gcc: proved PER ANSWER from a support certificate computed for every non-failing answer in the sweep (C14_gcc_instance); equality of model and implementation on the exhaustive small scope; brute-force hull; max-flow adjudication beyond the oracle", "§7 C14"),
 }
 CLAIMED.update({
     "C13": ("C13_*: Sol/SolW/reported invariant under constraint permutation, the sort of Problem.init, duplication, dummy, variable permutation, shared-domain renaming, unsharing, translation; metamorphic runs of the real solver on rewritten models and shipped examples; Problem.init arrays vs initProblem", "§7 C13"),
-    "C16": ("PARTIAL: C16_safe_<alg> (19 algorithms), C16_branch_index, C16_stack; sign- and bounds-checked arrays under the interpreted engine on every propagator and on whole searches; alldifferent/gcc ports validated, not proved", "§7 C16"),
-    "C19": ("PARTIAL: C19_stack_bound, C19_overflow_reported, C19_push_at_most_two on the model of solve_one; heights {2..8,127,128,255,256,257,300,512} x depths around the limit in interpreted and compiled mode; 8/16-bit widths tested, not modelled", "§7 C19"),
-    "C20": ("PARTIAL: C20_<model>: Sol ↔ Valid for 12 shipped models (all parameters); constructor arrays compared with the Lean models; solutions validated by independent validators; counts vs OEIS/literature; optima vs brute force", "§7 C20"),
+    "C16": ("PARTIAL: C16_safe_<alg> (19 algorithms), C16_port_alldifferent / C16_port_gcc / C16_port_full_proved (every array access of the raw ported Hall-interval algorithms is in bounds in contract), C16_branch_index, C16_stack; sign- and bounds-checked arrays under the interpreted engine on every propagator and on whole searches; integer widths of the arrays are tested (wide-magnitude cases), not modelled", "§7 C16"),
+    "C19": ("PARTIAL: C19_stack_bound, C19_overflow_reported, C19_push_at_most_two, C19_pointer_fits_uint8 on the model of solve_one; heights {2..8,127,128,255,256,257,300,512} x depths around the limit (two- and three-way splits, both parities) in interpreted and compiled mode; 16-bit index widths tested, not modelled", "§7 C19"),
+    "C20": ("PARTIAL: C20_<model>: Sol ↔ Valid for all 15 shipped models (all parameters); known counts for small instances by kernel evaluation (C20_count_*: queens 4..8, Latin squares 2..3, magic sequences 4..7, Schur 3..4, Golomb-4 optimum) and C20_solver_count; constructor arrays of all 15 models compared with the Lean models; solutions validated by independent validators; larger counts vs OEIS/literature and symmetry-breaking preservation tested; optima vs brute force", "§7 C20"),
     "C02": ("C02_enumeration(_bc/_guarded): solveAll from the root returns L.map reported with L duplicate-free and exactly the solutions, with explicit fuel/height bounds; C02_strategy_independent: any two configurations and posting orders yield permutations of the same list; whole-run correspondence + brute force on the real solver", "§7 C02"),
     "C03": ("C03_optimum(_bc/_guarded): optimize returns none iff infeasible, else a solution of optimal value, and terminates; correspondence of minimize/maximize incl. unwatched and shared-offset objectives; brute-force optimum", "§7 C03"),
     "C10": ("C10_stack_unchanged, C10_le_bc, C10_keeps_solutions, C10_consOk_shaving (+ search corollaries): shaving leaves the stack as found, returns sub-domains of bound consistency's, never loses a solution; whole runs with shaving compared with the model and with plain BC", "§7 C10"),
-    "C15": ("PARTIAL: C15_deterministic, C15_init_twice/C15_reuse, C15_stableSort_stable, C15_registry_*; compiled vs interpreted vs model on every case, histories (registrations, abandoned generators, reused problem objects) in one process — tested, not proved", "§7 C15"),
-    "C17": ("C17_pass_exact (ghost trace of executions = counters), C17_solveOne/C17_solveAll (SOLUTION, BC = CHOICE + BACKTRACK + 1), C17_depth; the 13 statistics of every whole run compared with the model's", "§7 C17"),
+    "C15": ("PARTIAL: C15_deterministic, C15_init_twice/C15_reuse, C15_stableSort_stable, C15_registry_*; compiled vs interpreted vs model on every case, histories (registrations, abandoned generators, reused problem objects, split after a solver used the object) in one process — tested, not proved", "§7 C15"),
+    "C17": ("C17_pass_exact (ghost trace of executions = counters), C17_solveOne/C17_solveAll (SOLUTION, BC = CHOICE + BACKTRACK + 1), C17_depth, C17_shaving_*; the 13 statistics of every whole run compared with the model's AND with event counts observed by interposition on the interpreted engine (passes, executions by outcome, no-change, choices, depth, backtracks, probes)", "§7 C17"),
     "C18": ("C18_halts_within_two_polls, C18_safety, C18_message_clears_suspicion on the parent state machine with time-outs; real worker processes killed at three points under a deadline watchdog; PARTIAL: OS behaviour of is_alive()/get(timeout) is tested, not proved", "§7 C18"),
 })
 NOT_YET = {}
